@@ -26,6 +26,7 @@ from halmos.utils import (
     str_opcode,
     stripped,
     uint256,
+    unbox_int,
 )
 
 OP_STOP = 0x00
@@ -311,7 +312,7 @@ class Contract:
             N = len(bytecode)
             while pc < N:
                 try:
-                    opcode = bytecode[pc]
+                    opcode = unbox_int(bytecode[pc])
                     if type(opcode) is not int:
                         raise NotConcreteError(f"symbolic opcode at pc={pc}")
 
